@@ -56,7 +56,7 @@ theorem C07_popleft_enabled {s : State} (h : sys.Reach s) (t : Nat) (hp : s.pc t
 /-- Non-vacuity: producer t0 adds 7 then 8, consumer t1 pops twice: gets 7 then 8. -/
 def demo : Option State := do
   let run (s : State) (ts : List Nat) : Option State := ts.foldlM (fun s t => (step s t).map (·.1)) s
-  let s ← call (init 2 false []) 0 (.add 7 none false)
+  let s ← call (init 2 false true []) 0 (.add 7 none false)
   let s ← run s [0, 0, 0, 0, 0, 0]
   let s ← call s 0 (.add 8 none false)
   let s ← run s [0, 0, 0, 0, 0, 0]
